@@ -961,3 +961,134 @@ func Bombs(d *Decoder, valid []byte, prefix []byte) (out [][]byte) {
 	}
 	return out
 }
+
+// ---------------------------------------------------------------------------
+// scaling: cost must grow at most linearly with the number of repeated elements
+
+// Scenario is one "many small repeated elements" message family.
+type Scenario struct {
+	Name  string
+	D     *Decoder
+	Build func(n, sz int) any // a valid message with n repeated elements of payload size sz
+}
+
+// Growth bounds: cost(8N) <= ScaleFactor*cost(N) + slack. A linear decoder
+// gives a ratio of about 8 (up to ~16 where slice doubling dominates), a
+// quadratic one 64.
+const (
+	ScaleFactor      = 16
+	ScaleAllocSlack  = 1 << 20
+	ScaleMallocSlack = 1 << 14
+)
+
+// measure decodes in with the collector switched off (a 3 GiB soft memory
+// limit stays as a safety net: if a super-linear decoder produces GiBs of
+// garbage the runtime may still collect it; TotalAlloc/Mallocs are cumulative
+// and not affected), on the calling goroutine.
+func (d *Decoder) measure(in []byte) Result {
+	runtime.GC()
+	oldPct := debug.SetGCPercent(-1)
+	oldLim := debug.SetMemoryLimit(3 << 30)
+	defer func() {
+		debug.SetGCPercent(oldPct)
+		debug.SetMemoryLimit(oldLim)
+		runtime.GC()
+	}()
+	return Guard(d.Name, clip(in, 64), func() (any, error) { return d.Decode(in) })
+}
+
+// RunScaling builds the scenario at N and 8N elements (the 8N encoding is
+// between 100 and 300 KiB; N, element payload size 0-3 and the target size
+// are drawn by a rapid generator from seed), decodes both and requires
+// TotalAlloc and Mallocs of the 8N decode to be at most 16x those of the N
+// decode (+ slack), both decodes to succeed and the decoded values to
+// re-encode to the input bytes (or, without an encoder, to equal the model).
+func RunScaling(t *testing.T, sc Scenario, seed int) {
+	type params struct{ sz, targetKiB int }
+	p := rapid.Custom(func(t *rapid.T) params {
+		return params{rapid.IntRange(0, 3).Draw(t, "sz"), rapid.IntRange(100, 300).Draw(t, "targetKiB")}
+	}).Example(seed)
+	d := sc.D
+	wire := func(n int) (any, []byte) {
+		m := sc.Build(n, p.sz)
+		b, err := d.wire(m)
+		if err != nil {
+			t.Fatalf("%s: scaling message with %d elements does not encode: %v", sc.Name, n, err)
+		}
+		return m, b
+	}
+	_, p64 := wire(64)
+	_, p128 := wire(128)
+	perElem := (len(p128) - len(p64)) / 64
+	if perElem < 1 {
+		t.Fatalf("%s: encoding does not grow with the element count (%d -> %d bytes)", sc.Name, len(p64), len(p128))
+	}
+	n := p.targetKiB * 1024 / 8 / perElem
+	if n < 16 {
+		n = 16
+	}
+	mS, inS := wire(n)
+	mL, inL := wire(8 * n)
+
+	check := func(m any, in []byte, r Result, what string) {
+		if r.Panic != nil {
+			t.Fatalf("%s: decoder panicked on the %s valid message (%d bytes): %v\n%s", sc.Name, what, len(in), r.Panic, r.Stack)
+		}
+		if r.Err != nil {
+			t.Fatalf("%s: %s valid message (%d bytes) rejected: %v", sc.Name, what, len(in), r.Err)
+		}
+		if d.Encode != nil {
+			enc, err := d.Encode(r.Msg)
+			if err != nil || !bytes.Equal(enc, in) {
+				t.Fatalf("%s: the message decoded from the %s input (%d bytes) does not re-encode to the input (err %v, %d bytes)", sc.Name, what, len(in), err, len(enc))
+			}
+		} else if d.canon(m) != d.canon(r.Msg) {
+			t.Fatalf("%s: the message decoded from the %s input differs from the generated one", sc.Name, what)
+		}
+	}
+	// small: minimum of two (the first decode of a type also fills reflection caches)
+	rS := d.measure(inS)
+	check(mS, inS, rS, "N")
+	if r := d.measure(inS); r.Panic == nil && r.Err == nil {
+		if r.Alloc < rS.Alloc {
+			rS.Alloc = r.Alloc
+		}
+		if r.Mallocs < rS.Mallocs {
+			rS.Mallocs = r.Mallocs
+		}
+	}
+	over := func(r Result) bool {
+		return r.Alloc > ScaleFactor*rS.Alloc+ScaleAllocSlack || r.Mallocs > ScaleFactor*rS.Mallocs+ScaleMallocSlack
+	}
+	// large: re-measured (up to three times, minimum) only when over the bound
+	rL := d.measure(inL)
+	check(mL, inL, rL, "8N")
+	for i := 0; i < 2 && over(rL); i++ {
+		r := d.measure(inL)
+		if r.Alloc < rL.Alloc {
+			rL.Alloc = r.Alloc
+		}
+		if r.Mallocs < rL.Mallocs {
+			rL.Mallocs = r.Mallocs
+		}
+	}
+	descr := fmt.Sprintf("%s scaling sz=%d N=%d (%d bytes: alloc %d, objects %d) 8N=%d (%d bytes: alloc %d, objects %d) ratio alloc %.1f objects %.1f",
+		sc.Name, p.sz, n, len(inS), rS.Alloc, rS.Mallocs, 8*n, len(inL), rL.Alloc, rL.Mallocs,
+		float64(rL.Alloc)/float64(rS.Alloc+1), float64(rL.Mallocs)/float64(rS.Mallocs+1))
+	fmt.Println("C33-SCALING " + descr)
+	if over(rL) {
+		t.Fatalf("%s: decoding cost grows faster than linearly with the number of elements: %d elements (%d bytes) allocate %d bytes / %d objects, %d elements (%d bytes) allocate %d bytes / %d objects; bound %d*small+%d bytes, %d*small+%d objects",
+			sc.Name, n, len(inS), rS.Alloc, rS.Mallocs, 8*n, len(inL), rL.Alloc, rL.Mallocs, ScaleFactor, ScaleAllocSlack, ScaleFactor, ScaleMallocSlack)
+	}
+	kit.Case(descr, true, sc.Name+"/scaling")
+}
+
+// ScalingSeed is the seed of the scaling parameters: VERIF_SEED (default 1).
+func ScalingSeed() int {
+	s := 1
+	fmt.Sscanf(os.Getenv("VERIF_SEED"), "%d", &s)
+	if s <= 0 {
+		s = 1
+	}
+	return s
+}
